@@ -274,12 +274,12 @@ class Cache1D:
                     raise IndexError('Failed to find requested gammapos={0:.4f} '
                                      'in Cache1D spectra. Was it included in '
                                      'additional_gammas during cache generation?'.format(gammapos))
-                pos_fs = theta*demo_sel_func(tuple(self.params) + (gammapos,),
-                                             self.ns, self.pts)
+                pos_fs = demo_sel_func(tuple(self.params) + (gammapos,),
+                                       self.ns, self.pts)
                 self.gammas = np.append(self.gammas, gammapos)
                 self.spectra = np.append(self.spectra, [pos_fs.data], axis=0)
             ii = list(self.gammas).index(gammapos)
             pos_fs = Spectrum(self.spectra[ii])
-            result += ppos*pos_fs
+            result += theta*ppos*pos_fs
 
         return result
